@@ -6,10 +6,10 @@ from pyvc.values import *  # noqa
 from contracts.lib import *  # noqa
 from contracts.C17 import tagged, zs, SINGLE, hash_len_facts, U, T
 
-LEVEL = "proof"
+LEVEL = "other"
 MANIFEST_ENTRY = {
     "text": "For all key/fingerprint values: every cap class's get_readonly/get_verify_cap return the documented weaker class with the same fingerprint and the storage index of the chain (write key -> read key -> storage index), carry no stronger secret as a field, and report is_readonly/is_mutable as documented; uri.from_string never returns a writeable class for an 'ro.'/'imm.'/deep-immutable input nor a mutable class for an 'imm.'/deep-immutable input, and wraps such caps in UnknownURI with the matching error -- for every one of the 18 prefixes and every tail string.",
-    "note": "SHA-256 uninterpreted (equality of hash inputs). Per-class init_from_string is abstracted in the from_string dispatch contract (its own contract is C15). UnknownNode / NodeMaker handling of prefixes is not under contract (nodemaker cache histories are schedule/history properties).",
+    "note": "Level other because the NodeMaker cache contract enumerates cache shapes (exhaustively over 4 possible entries). SHA-256 uninterpreted (equality of hash inputs). Per-class init_from_string is abstracted in the from_string dispatch contract (its own contract is C15). NodeMaker.create_from_cap is under contract with an arbitrary cache satisfying the cache invariant (so histories reduce to one call); UnknownNode bookkeeping is not under contract.",
 }
 EXPLANATION = "Symbolic execution of the real attenuation methods and of uri.from_string with symbolic tails."
 TRUSTED = ["hashlib.sha256 uninterpreted"]
@@ -228,5 +228,71 @@ class FromString(Spec):
         return [("canary", z3.BoolVal(out.value.cls.__name__ == "UnknownURI"))]
 
 
+class NodeCache(Spec):
+    """NodeMaker.create_from_cap with an arbitrary (representation-invariant respecting) node cache: the node returned
+    is the one a cold cache would build for THIS (cap, deep_immutable) -- a node cached for the same cap string in
+    another context, or for another cap, is never handed out."""
+    file = "allmydata/nodemaker.py"
+    qualname = "NodeMaker.create_from_cap"
+    level = "B"
+    bound = "cache holding any subset of the four entries {M,I}+writecap, {M,I}+readcap (exhaustive over the subsets); cap strings symbolic"
+    cross_check = 0
+    canary_case = {"deep": True, "have_w": True, "have_r": False, "pre": (True, False, False, False)}
+
+    def inputs(self):
+        return {"w": StrK(True), "r": StrK(True), "deep": ChoiceK([False, True]), "have_w": ChoiceK([False, True]), "have_r": ChoiceK([False, True]),
+                "pre": ChoiceK([()])}
+
+    def all_cases(self):
+        import itertools
+        cs = []
+        for deep in (False, True):
+            for hw, hr in ((True, True), (True, False), (False, True)):
+                for pre in itertools.product((False, True), repeat=4):
+                    cs.append({"deep": deep, "have_w": hw, "have_r": hr, "pre": pre})
+        return cs
+
+    def requires(self, I, a):
+        return z3.And(z3.Length(T(a["w"])) > 0, z3.Length(T(a["r"])) > 0, T(a["w"]) != T(a["r"]))
+
+    def config(self):
+        me = self
+
+        def from_string(I, args, kw):
+            cap, deep = args[0], kw.get("deep_immutable", args[1] if len(args) > 1 else False)
+            return stub("cap", tag=("cold", cap, bool(deep)))
+
+        def create(I, args, kw):
+            capobj = args[-1]
+            n = stub("node", is_mutable=lambda I_, a_, k_: True, get_storage_index=lambda I_, a_, k_: b"si")
+            n.fields["tag"] = capobj.fields["tag"]
+            return n
+        return {"overrides": {"uri.from_string": from_string, "NodeMaker._create_from_single_cap": create}}
+
+    def run(self, I, a):
+        w, r = a["w"], a["r"]
+        cache = {}
+        from pyvc import models_ext as E
+        keys = [(b"M", w), (b"I", w), (b"M", r), (b"I", r)]
+        for on, (ctx, cap) in zip(a["pre"], keys):
+            if on:
+                n = stub("cached", is_mutable=lambda I_, a_, k_: True, get_storage_index=lambda I_, a_, k_: b"si")
+                n.fields["tag"] = ("cold", cap, ctx == b"I")          # invariant: what a cold build for that key's context gives
+                E.dict_set(I, cache, SStr(z3.Concat(zstr(ctx), T(cap)), True), n)
+        nm = SObj(self.module().NodeMaker, {"_node_cache": cache, "blacklist": None})
+        node = I.call_value(self.target(I), [nm, w if a["have_w"] else None, r if a["have_r"] else None, a["deep"], "name"], {})
+        out = Outcome("return", node)
+        return out
+
+    def ensures(self, I, a, out):
+        tag = out.value.fields["tag"]
+        big = a["w"] if a["have_w"] else a["r"]
+        return [("node-is-the-one-for-this-cap", T(tag[1]) == T(big)),
+                ("node-was-built-for-this-immutability-context", z3.BoolVal(tag[2] is a["deep"]))]
+
+    def canary(self, I, a, out):
+        return [("canary", z3.BoolVal(out.value.fields["tag"][2] is False))]
+
+
 def contracts(tier):
-    return [Attenuate(k) for k in list(FILE_TABLE) + list(DIR_TABLE)] + [FromString()]
+    return [Attenuate(k) for k in list(FILE_TABLE) + list(DIR_TABLE)] + [FromString(), NodeCache()]
